@@ -189,8 +189,8 @@ Definition validate_each_offset (a : parr) (w : nat) (limit : nat) (check : Z ->
 (* validate_view_impl: every view (null slots included) *)
 Definition impl_view (utf8 : bool) (data : list (list N)) (v : N) : bool :=
   let len := view_len v in
-  if (len <=? 12)%N then
-    ((12 <=? len)%N || N.eqb (N.shiftr v (32 + len * 8)) 0) &&
+  if (len <=? max_inline_view_len)%N then
+    ((max_inline_view_len <=? len)%N || N.eqb (N.shiftr v (32 + len * 8)) 0) &&
     (negb utf8 || valid_utf8 (view_inline_bytes v))
   else
     if (view_bufidx v <? N.of_nat (length data))%N then
